@@ -183,11 +183,26 @@ func (g *gen) history(spec *Spec) {
 		}
 		ne = len(spec.Exprs)
 	}
+	if g.k.Chance(2, 3) {
+		// catalogue programs on the canonical document: the same triples
+		// recur in many processes with different histories, which is what
+		// the cross-process comparison needs
+		spec.Docs = append(spec.Docs, DocSpec{ID: "dc", JSON: work.DocJSON(0, 0)})
+		k := g.w.Range(1, 3)
+		for i := 0; i < k; i++ {
+			p := work.Catalogue[g.w.Intn(len(work.Catalogue))]
+			spec.Exprs = append(spec.Exprs, ExprSpec{ID: fmt.Sprintf("c%d", i), Text: p.Text, Family: p.Family, Exts: true})
+		}
+		ne = len(spec.Exprs)
+	}
 	var ops []Op
 	priv := 0
 	for len(ops) < nops {
 		e := spec.Exprs[g.w.Intn(ne)]
 		d := spec.Docs[g.w.Intn(nd)].ID
+		if e.ID[0] == 'c' {
+			d = "dc"
+		}
 		switch c := g.w.Intn(12); {
 		case c < 6:
 			op := Op{Kind: "eval", Expr: e.ID, Doc: d}
@@ -477,6 +492,12 @@ var extPrograms = []work.Program{
 	{Text: `items.(p.$xctx() & $string($xfault(q)))`, Family: "ext"},
 	{Text: `($f := $xfault; $f(name))`, Family: "ext"},
 	{Text: `$xfault(?)(name)`, Family: "ext"},
+	{Text: `name.$xboth(nosuch)`, Family: "ext"},
+	{Text: `$xboth(nosuch)`, Family: "ext"},
+	{Text: `items.p.$xboth(1)`, Family: "ext"},
+	{Text: `$xboth(name, 1)`, Family: "ext"},
+	{Text: `$xboth(nosuch, 1)`, Family: "ext"},
+	{Text: `nest.c.$xboth($$.nosuch) & "|" & $xboth(one.k, nosuch)`, Family: "ext"},
 }
 
 func (g *gen) extFaults(spec *Spec) {
